@@ -703,6 +703,16 @@ fn run_index(g: &mut Gen, rng: &mut Rng, thorough: bool) {
             }
             n += 1;
         }
+        // save + reload while the update section is (nearly) full: every page of the section,
+        // including the last one, must survive serialisation (seeded change C05-2 — last page
+        // dropped by an off-by-one in the page loop — slipped through before this step existed)
+        if c % 2 == 1 || c == 0 {
+            g.emit("save".into());
+            g.emit("reload".into());
+            g.emit("count".into());
+            g.emit(format!("get {}", Gen::key_s(&fam[(i.max(1) - 1) % fam.len()])));
+            g.emit(format!("get {}", Gen::key_s(&fam[0])));
+        }
         // at the boundary: every mutator, then probes
         let victims: Vec<[u8; 16]> = (0..6).map(|j| fam[(j * 37) % fam.len().min(i.max(1))]).collect();
         let order = rng.below(4);
